@@ -37,12 +37,18 @@ def per_array(e, idxname):
 
 
 def resolve_local(fn, name):
-    for a in ast.walk(fn):
-        if isinstance(a, (ast.Assign, ast.AnnAssign)):
-            t = a.targets[0] if isinstance(a, ast.Assign) else a.target
-            if isinstance(t, ast.Name) and t.id == name and a.value is not None:
-                return a.value
-    return None
+    """what a local name stands for, with the chain of single-assignment aliases behind it followed (head_ptr = head.data; head = self.heads[pa_index] ...)"""
+    from verif_static import norm as N
+    defs = N.local_defs([fn])
+    # names assigned in loops / re-assigned are not aliases
+    if name not in defs:
+        return None
+    return N.inline(defs[name], defs)
+
+
+def resolve_deep(fn, e):
+    from verif_static import norm as N
+    return N.inline(e, N.local_defs([fn]))
 
 
 def rule_impl(chk, rel, cls, fn):
@@ -138,7 +144,7 @@ def rule_impl(chk, rel, cls, fn):
                 hd = hd.value
             hv = resolve_local(fn, hd.id) if isinstance(hd, ast.Name) else hd
             head_ok = hv is not None and per_array(hv, idxname)
-        cells_ok = outer is not None and compact(outer.iter) in ('range(self.n_cells)', 'range(n_cells)')
+        cells_ok = outer is not None and compact(resolve_deep(fn, outer.iter)) in ('range(self.n_cells)',)
         chk.decide(sentinel and adv_ok and nxt_ok, 'ordered-indices', who + ':chain-to-sentinel', node=loop, file=rel, func=who,
                    detail_bad='cell chain is not followed through next[%s] of array %s until UINT_MAX' % (cur, idxname),
                    detail_ok='while %s: append; %s' % (U(loop.test), U(adv[-1]) if adv else ''))
@@ -179,72 +185,79 @@ def rule_tree_count(chk):
 
 
 def rule_apply(chk):
+    """NNPS.spatially_order_particles and Solver.reorder_particles decided on model runs (E8 interpreter on the lowered Cython / Python syntax trees): a model NNPS with two
+    wrapped arrays (the second with four properties, one of them strided and missing from its load-balancing list) records what is permuted with what; a model solver with three
+    arrays records the order of re-ordering and the neighbour update."""
+    from verif_static import emit as EM, absint as AI
     t = M.cy(NB)
     fn = M.find_method(t, 'NNPS', 'spatially_order_particles')
-    g = C.build_cfg(fn)
-    calls = [c for c in M.calls(fn) if isinstance(c.func, ast.Attribute) and c.func.attr in ('c_align_array', 'align_array')]
-    if not calls:
-        chk.violated('apply-permutation', 'c_align_array', node=fn, file=NB, func='NNPS.spatially_order_particles',
-                     detail='properties are never permuted')
-        return
-    c = calls[0]
-    loop = M.enclosing(c, (ast.For,))
-    ok = loop is not None and compact(loop.iter) == 'pa.properties.items()' and isinstance(loop.target, ast.Tuple)
-    has_escape = loop is not None and any(isinstance(x, (ast.Continue, ast.Break, ast.If)) for b in loop.body for x in ast.walk(b))
-    chk.decide(ok and not has_escape, 'apply-permutation', 'every-property', node=loop or c, file=NB, func='NNPS.spatially_order_particles',
-               detail_bad='the permutation is not applied to every property of the array', detail_ok='for name, arr in pa.properties.items()')
-    idx = compact(c.args[0]) if c.args else ''
-    fill = [x for x in M.calls(fn) if M.call_name(x) == 'self.get_spatially_ordered_indices' and len(x.args) == 2
-            and compact(x.args[1]) == idx and compact(x.args[0]) == 'pa_index']
-    chk.decide(len(set(compact(k.args[0]) for k in calls)) == 1 and bool(fill), 'apply-permutation', 'one-index-array', node=c, file=NB,
-               func='NNPS.spatially_order_particles',
-               detail_bad='properties are permuted with an index array other than the one filled for pa_index',
-               detail_ok='the single list filled by get_spatially_ordered_indices(pa_index, %s)' % idx)
-    if ok:
-        key = U(loop.target.elts[0])
-        arrv = U(loop.target.elts[1])
-        st = c.args[1] if len(c.args) > 1 else None
-        sdef = compact(st) if st is not None and not isinstance(st, ast.Name) else None     # the look-up may be written in place
-        for a in loop.body:
-            if isinstance(a, ast.Assign) and st is not None and compact(a.targets[0]) == compact(st):
-                sdef = compact(a.value)
-        chk.decide(compact(c.func.value) == arrv and sdef == 'pa.stride.get(%s,1)' % key, 'apply-permutation', 'own-stride', node=c,
-                   file=NB, func='NNPS.spatially_order_particles',
-                   detail_bad='property %s is permuted with stride %s (definition %s)' % (arrv, U(st) if st is not None else None, sdef),
-                   detail_ok='stride looked up for the same key')
-    pav = [a for a in ast.walk(fn) if isinstance(a, (ast.AnnAssign, ast.Assign)) and
-           compact(a.target if isinstance(a, ast.AnnAssign) else a.targets[0]) == 'pa' and a.value is not None]
-    chk.decide(bool(pav) and compact(pav[0].value) == 'self.pa_wrappers[pa_index].pa', 'apply-permutation', 'same-array', node=fn,
-               file=NB, func='NNPS.spatially_order_particles', detail_bad='permuted array is not pa_wrappers[pa_index].pa',
-               detail_ok='pa = self.pa_wrappers[pa_index].pa')
-    # real particles first again before anybody consumes the array
-    ln = g.node_of(loop) if loop is not None else None
-    al = [n.id for n in g.nodes if n.ast is not None and isinstance(n.ast, ast.Expr) and M.call_name(n.ast.value) == 'pa.align_particles']
-    ok_here = ln is not None and bool(al) and g.must_pass(ln, g.exit, al) and all(ln in g.reachable(g.entry, avoid=[a]) for a in al)
-    ok_solver = False
+    who = 'NNPS.spatially_order_particles'
+    try:
+        it = EM.interpreter()
+        EM.model_module(it, '<nb>', t)
+        log = []
+
+        def carray(name):
+            def align(i, args, kwargs, node, env):
+                log.append(('align', name, args[0] if args else None, args[1] if len(args) > 1 else kwargs.get('stride', 1)))
+            return EM.mock(name=name, c_align_array=align, align_array=align)
+
+        def pa(nm, props, strides):
+            return EM.mock(name=nm, properties=dict((p_, carray(nm + '.' + p_)) for p_ in props), stride=dict(strides),
+                           align_particles=lambda i, a, k, n, e: log.append(('align_particles', nm)), get_lb_props=lambda i, a, k, n, e: props[:2], lb_props=props[:2])
+        pas = [pa('a0', ['x', 'm'], {}), pa('a1', ['x', 'A', 'tag', 'u'], {'A': 4})]
+        nn = EM.instance(it, '<nb>', 'NNPS', pa_wrappers=[EM.mock(pa=p_) for p_ in pas], particles=pas,
+                         get_spatially_ordered_indices=lambda i, args, k, n, e: log.append(('fill', args[0], args[1] if len(args) > 1 else None)))
+        EM.call(it, nn, 'spatially_order_particles', 1)
+        fills = [l for l in log if l[0] == 'fill']
+        aligns = [l for l in log if l[0] == 'align']
+        chk.decide(sorted(l[1] for l in aligns) == ['a1.A', 'a1.tag', 'a1.u', 'a1.x'], 'apply-permutation', 'every-property', node=fn, file=NB, func=who,
+                   detail_bad='for array 1 of the model (properties x, A, tag, u) the permutation is applied to %s: it must be applied to every property of that array, once each' % [l[1] for l in aligns],
+                   detail_ok='every property of the array, once')
+        chk.decide(len(fills) == 1 and fills[0][1] == 1 and bool(aligns) and all(l[2] is fills[0][2] for l in aligns), 'apply-permutation', 'one-index-array', node=fn, file=NB, func=who,
+                   detail_bad='properties are permuted with an index array other than the one filled by get_spatially_ordered_indices(pa_index, .)', detail_ok='the single list filled for pa_index')
+        strides = dict((l[1], l[3]) for l in aligns)
+        chk.decide(all(strides.get(k_) == v_ for k_, v_ in (('a1.A', 4), ('a1.x', 1), ('a1.tag', 1), ('a1.u', 1)) if k_ in strides) and 'a1.A' in strides, 'apply-permutation', 'own-stride',
+                   node=fn, file=NB, func=who, detail_bad='strides used: %s (A has stride 4, the others 1)' % strides, detail_ok='stride looked up for the same key')
+        chk.decide(all(l[1].startswith('a1.') for l in aligns) and bool(aligns), 'apply-permutation', 'same-array', node=fn, file=NB, func=who,
+                   detail_bad='permuted arrays: %s (asked for array 1)' % [l[1] for l in aligns], detail_ok='the array wrapped at pa_index')
+        last_align = max([i for i, l in enumerate(log) if l[0] == 'align'] or [-1])
+        ok_here = any(l == ('align_particles', 'a1') and i > last_align for i, l in enumerate(log))
+    except (AI.Unsupported, AI.Raised) as e:
+        chk.undecided('apply-permutation', 'model-run', node=fn, file=NB, func=who, detail='not interpretable on the model: %s' % e)
+        ok_here = False
     sol = M.py(SOL)
     rp = M.find_method(sol, 'Solver', 'reorder_particles')
-    if not ok_here:
-        src = compact(rp)
-        ok_solver = 'align_particles()' in src
-    chk.decide(ok_here or ok_solver, 'real-first-after-permutation', 'align', node=fn, file=NB, func='NNPS.spatially_order_particles',
+    slog = []
+    try:
+        it2 = EM.interpreter()
+        nn2 = EM.mock(spatially_order_particles=lambda i, args, k, n, e: slog.append(('order', args[0])), update=lambda i, args, k, n, e: slog.append(('update',)))
+        parr = [EM.mock(name='p%d' % k_, align_particles=lambda i, a, k, n, e, k_=k_: slog.append(('align', k_))) for k_ in range(3)]
+        # serial and parallel set-ups alike (pm = None / a parallel manager)
+        pm_log = []
+        for pm_ in (None, EM.mock(update=lambda i, a, k, n, e: pm_log.append('pm.update'), update_remote_particle_properties=lambda i, a, k, n, e: None)):
+            so = EM.instance(it2, SOL, 'Solver', particles=parr, nnps=nn2, pm=pm_, in_parallel=pm_ is not None, comm=None, rank=0)
+            n0 = len(slog)
+            EM.call(it2, so, 'reorder_particles')
+            seg = slog[n0:]
+            lo_ = max([i for i, l in enumerate(seg) if l[0] == 'order'] or [-1])
+            if not any(l[0] == 'update' and i > lo_ for i, l in enumerate(seg)):
+                slog.append(('missing-update', 'pm is None' if pm_ is None else 'with a parallel manager'))
+        slog_first = slog
+        orders = [l[1] for l in slog if l[0] == 'order'][:3]
+        chk.decide(sorted(orders) == [0, 1, 2], 'reorder-all-arrays-then-update', 'all-arrays', node=rp, file=SOL, func='Solver.reorder_particles',
+                   detail_bad='with three arrays the solver re-orders %s' % orders, detail_ok='every array once')
+        chk.decide(not [l for l in slog if l[0] == 'missing-update'], 'reorder-all-arrays-then-update', 'update-after', node=rp, file=SOL, func='Solver.reorder_particles',
+                   detail_bad='the neighbour structures are not rebuilt after the particles were permuted (stale indices): %s' % slog, detail_ok='nnps.update() after the last re-ordering')
+        ok_solver = all(('align', k_) in slog for k_ in range(3))
+    except (AI.Unsupported, AI.Raised) as e:
+        chk.undecided('reorder-all-arrays-then-update', 'model-run', node=rp, file=SOL, func='Solver.reorder_particles', detail='not interpretable on the model: %s' % e)
+        ok_solver = False
+    chk.decide(ok_here or ok_solver, 'real-first-after-permutation', 'align', node=fn, file=NB, func=who,
                detail_bad='after the permutation nobody re-establishes "Local particles occupy the first num_real_particles slots": '
                           'with a periodic/mirror domain the ordering interleaves ghosts with real particles, and stage loops '
                           'run over range(num_real_particles)',
-               detail_ok='pa.align_particles() after the permutation')
-    # solver side
-    gs = C.build_cfg(rp)
-    loops = [l for l in ast.walk(rp) if isinstance(l, ast.For)]
-    ok = bool(loops) and compact(loops[0].iter) in ('range(len(self.particles))',) and any(
-        M.call_name(x) == 'self.nnps.spatially_order_particles' and compact(x.args[0]) == U(loops[0].target) for x in M.calls(loops[0]))
-    chk.decide(ok, 'reorder-all-arrays-then-update', 'all-arrays', node=rp, file=SOL, func='Solver.reorder_particles',
-               detail_bad='not every particle array is re-ordered', detail_ok='for i in range(len(self.particles))')
-    upd = [n.id for n in gs.nodes if n.ast is not None and isinstance(n.ast, ast.Expr) and M.call_name(n.ast.value) == 'self.nnps.update']
-    ln = gs.node_of(loops[0]) if loops else None
-    chk.decide(ln is not None and bool(upd) and gs.must_pass(ln, gs.exit, upd), 'reorder-all-arrays-then-update', 'update-after',
-               node=rp, file=SOL, func='Solver.reorder_particles',
-               detail_bad='the neighbour structures are not rebuilt after the particles were permuted (stale indices)',
-               detail_ok='self.nnps.update() after the loop')
+               detail_ok='align_particles() after the permutation')
 
 
 def main(chk):
@@ -265,6 +278,12 @@ def main(chk):
     chk.unit('files', files + [NB, SOL])
     rule_apply(chk)
     rule_tree_count(chk)
+    # the re-ordering ends with align_particles(): that it builds a permutation (no particle duplicated or lost) is the rule shared with C16 / C06
+    import importlib.util
+    spec16 = importlib.util.spec_from_file_location('c16mod', os.path.join(os.path.dirname(os.path.abspath(__file__)), 'c16.py'))
+    c16 = importlib.util.module_from_spec(spec16)
+    spec16.loader.exec_module(c16)
+    c16.rule_alignment(chk)
     chk.assume('that head/next, pid and key tables hold each particle exactly once is not decided (see C01)')
 
 
